@@ -4,7 +4,7 @@ from pyvc.api import *
 PROP = 'C20'
 REPLAYERS = {q: 'replayers/manager_refs.py' for q in (
     'managers.Server.incref', 'managers.Server.decref', 'managers.Server.create', 'managers.Server.handle_request',
-    'managers.Server.serve_client', 'managers.dispatch')}
+    'managers.Server.serve_client', 'managers.dispatch', 'managers.BaseProxy._decref', 'managers.BaseProxy._incref')}
 
 ASSUMPTIONS = [
     'deliver_challenge / answer_challenge have the contracts proved in C18 (they return only for a peer that holds the key; '
@@ -22,8 +22,9 @@ ASSUMPTIONS = [
 OUT_OF_REACH = [
     'that a proxy operation returns what the same operation on a local object would (the referent is foreign code; pickling)',
     'atomicity of single operations from concurrent clients beyond "the tables are touched under the mutex"; the lifetime of '
-    'a referent across processes is the induction over incref/decref calls (meta-argument) plus the finalizers that issue '
-    'them (BaseProxy._incref/_decref, util.Finalize: not under contract)',
+    'a referent across processes is the induction over incref/decref calls (meta-argument); that util.Finalize runs the '
+    'registered finalizer when the proxy is dropped is an assumed contract (BaseProxy._incref / _decref themselves are under '
+    'contract)',
     'BaseProxy._callmethod (the proxy method that wraps dispatch: thread-local connection, #PROXY answers) is not under '
     'contract; managers.dispatch, the function it shares the answer handling with, is',
 ]
@@ -340,7 +341,8 @@ def serve_contracts(w, tables, inv):
                 'AssertionError': {'server_side_failure_with_a_malformed_text': 'g.outcome == 2 or g.outcome == 3'},
                 'ValueError': {'unknown_kind': 'g.outcome == 4'}},
     )
-    return [serve, disp]
+    import c20_proxy
+    return [serve, disp] + c20_proxy.proxy_contracts(w, PROP)
 
 
 MANIFEST_ENTRY = {
@@ -360,7 +362,12 @@ MANIFEST_ENTRY = {
             'that very exception and is never replaced by a traceback; the loop is left only at end of stream, after a failed '
             'answer (connection closed, status 1) or by a BaseException of the referent.  managers.dispatch (client side): '
             'returns the body of a #RETURN answer unchanged, re-raises the body of an #ERROR answer, raises RemoteError for '
-            '#TRACEBACK / #UNSERIALIZABLE and ValueError otherwise, after sending exactly one request.',
+            '#TRACEBACK / #UNSERIALIZABLE and ValueError otherwise, after sending exactly one request.  The proxy\'s own '
+            'reference (BaseProxy._incref / _decref): _incref sends exactly one incref for its object on a new connection made '
+            'with the proxy\'s key, remembers the id, and registers exactly one finalizer -- _decref with this proxy\'s token, '
+            'key, manager state, thread-local store and id set; _decref forgets the id and sends exactly one decref for that '
+            'object unless the manager is known to be shut down -- in particular also for a proxy without a manager object (a '
+            'pickled copy, a forked child) -- and closes the thread\'s connection exactly with the last proxy of the process.',
     'note': 'Sequential core only: atomicity under concurrent clients is reduced to the mutex discipline; that proxy operations '
             'return what local ones would is covered as far as "the server hands back the referent\'s own result / exception '
             'unchanged and the client hands that on" (pickling and the referent are foreign code); BaseProxy._callmethod and the '
